@@ -444,3 +444,6 @@ func c12KeyExec(c c12KeyCase) (o kit.Outcome) {
 func TestC12APIKey(t *testing.T) {
 	kit.Check(t, "C12", "TestC12APIKey", c12KeyGen, c12KeyExec)
 }
+
+// FuzzC12APIKey: the same generator and oracle as TestC12APIKey under Go's coverage-guided fuzzer (thorough tier).
+func FuzzC12APIKey(f *testing.F) { kit.FuzzOf(f, "C12", "TestC12APIKey", c12KeyGen, c12KeyExec) }
